@@ -206,6 +206,11 @@ func c03CheckRequest(e *c03Env, rec *verifRecorder, obj map[string]interface{}, 
 	if !ok {
 		return
 	}
+	c03CheckFrame(e, frame, obj, method, id)
+}
+
+// c03CheckFrame: the frame answering a well-formed request (method string, string or number id).
+func c03CheckFrame(e *c03Env, frame interface{}, obj map[string]interface{}, method string, id interface{}) {
 	result, hasResult, errObj, hasErr := verifResponse(frame, id)
 	code := verifErrCode(errObj)
 	if !verifKnownMethod(method) {
